@@ -14,7 +14,7 @@ RULE = (
     "stored currents; non-convergence raises and records nothing. Non-trivial = at least 2 accepted screening steps or a forced "
     "non-convergence; distinct = scenario digests"
 )
-LIFECYCLES = {"p_prior": 0.07, "p_metres": 0.08, "p_reoriented": 0.04}  # shared object life cycles (scen.add_lifecycles) with their default rates
+LIFECYCLES = {"p_prior": 0.07, "p_metres": 0.08, "p_reoriented": 0.04, "p_used": 0.15}  # shared object life cycles (scen.add_lifecycles) with their default rates
 BUDGET = {"quick": {"runs": 200, "chunk": 5}, "thorough": {"runs": 30000, "chunk": 10}}
 COMPONENTS = {"real": ["numba kernel get_A_induced_numba", "TDGLSolver.get_induced_vector_potential / update iteration loop", "Mesh.get_quantity_on_site"], "stub": ["wall clock"]}
 
